@@ -74,6 +74,10 @@ def run(prog, rep, tier, repo):
     check_chunk_remainder(prog, rep, 'chunk-remainder', lambda k: 'distributions::' in k)
     rep.trusted.append('alea::f64() lies in [0, 1)')
     d11_total(prog, rep)
+    # a sampler that builds a shifted twin of its object with struct-update syntax must not carry derived constants of the old parameters
+    from . import c18
+    c18.check_literals(prog, rep, 'literal-coherent')
+    rep.floor('literal-coherent', 1, 'scan of distributions::')
     return {}
 
 
